@@ -13,6 +13,9 @@ import JjModel.Lemmas.Immutable
     changes no immutable commit; `rejected_iff` says when it is refused instead;
   * `ignore_immutable_protects_root`;
   * `snapshot_on_immutable_creates_child`, `snapshot_never_rewrites_immutable`, `finish_wc_mutable`;
+  * placements with both `--insert-after` and `--insert-before` (`new`, `rebase -r`, `duplicate`,
+    `revert` `-A X -B Y…`; checked set = the `-B` commits): `new_after_before_rejected_iff`,
+    `rebase_after_before_rejected_iff`, `new_after_before_never_rewrites_immutable`;
   * `jj commit` is a guarded command (checked set = `{@}`, /repo edbccd1):
     `commit_rejected_iff_wc_immutable`, `commit_never_rewrites_immutable`;
   * the two commands that touch `@` without asking `check_rewritable` (the abandon-if-discardable
@@ -112,6 +115,10 @@ theorem check_rewritable_guards (g : Graph) (wc : Nat) (c : Cmd) (hc : unguarded
   | simplifyParents a => simpa [affected, effect, checked] using hx
   | refSet a => simp [affected, effect] at hx
   | commitWc => simpa [affected, effect, checked] using hx
+  | newAB a ys => simpa [affected, effect, checked] using hx
+  | rebaseRAB z a ys => simpa [affected, effect, checked] using hx
+  | duplicateAB z a ys => simpa [affected, effect, checked] using hx
+  | revertAB z a ys => simpa [affected, effect, checked] using hx
 
 theorem run_ok_checked {g : Graph} {heads : List Nat} {wc : Nat} {ign : Bool} {c : Cmd} {rw ab : List Nat}
     (h : run g heads wc ign c = .ok rw ab) :
@@ -275,6 +282,34 @@ theorem commit_never_rewrites_immutable {g : Graph} (hg : Topo g) (heads : List 
   subst h1 h2
   simp [effect, dedupSorted]
 
+/-! ### placements with both `--insert-after` and `--insert-before` (seed C42: the third arm of
+`compute_commit_location` lost its `check_rewritable(new_child_ids)`) -/
+
+/-- `jj new -A X -B Y…` is refused exactly when one of the `-B` commits (the new children, which
+get the inserted commit as a parent) is immutable — whatever `X` is: the immutability check runs
+before the loop check. -/
+theorem new_after_before_rejected_iff (g : Graph) (heads : List Nat) (wc x : Nat) (ys : List Nat) :
+    run g heads wc false (.newAB x ys) = .rejected ↔ ∃ y ∈ ys, y ∈ immutableSet g heads := by
+  rw [rejected_iff]
+  simp [preError, checked]
+
+/-- `jj rebase -r Z -A X -B Y…`: refused exactly when `Z` or a `-B` commit is immutable. -/
+theorem rebase_after_before_rejected_iff (g : Graph) (heads : List Nat) (wc z x : Nat) (ys : List Nat) :
+    run g heads wc false (.rebaseRAB z x ys) = .rejected ↔
+      z ∈ immutableSet g heads ∨ ∃ y ∈ ys, y ∈ immutableSet g heads := by
+  rw [rejected_iff]
+  simp [preError, checked]
+
+/-- A both-flags placement that is not refused rewrites exactly the `-B` commits and their
+descendants, none of them immutable (instance of `immutable_untouched`). -/
+theorem new_after_before_never_rewrites_immutable {g : Graph} (hg : Topo g) (heads : List Nat)
+    (wc x : Nat) (ys rw ab : List Nat) (h : run g heads wc false (.newAB x ys) = .ok rw ab) :
+    (rw = dedupSorted (descendants g ys) ∧ ab = []) ∧ ∀ c, c ∈ rw ∨ c ∈ ab → c ∉ immutableSet g heads := by
+  refine ⟨?_, immutable_untouched hg heads wc (.newAB x ys) rfl rw ab h⟩
+  obtain ⟨_, h1, h2⟩ := run_ok_checked h
+  subst h1 h2
+  simp [effect, dedupSorted]
+
 /-! ### the code violates the property for the unguarded commands when `@` is immutable -/
 
 def witnessGraph : Graph := [{ id := 1, parents := [0] }, { id := 2, parents := [1], disc := true, empty := true }]
@@ -315,6 +350,22 @@ example : run exGraph [2] 4 false (.abandon [3]) = .ok [4] [3] := by decide
 example : run exGraph [2] 4 true (.describe [2]) = .ok [2, 3, 4] [] := by decide
 example : run exGraph [2] 4 true (.describe [0]) = .rejected := by decide
 example : run exGraph [] 4 false (.rebaseB 4 2) = .ok [3, 4] [] := by decide
+-- both `-A` and `-B`: immutable `-B` commit that is not an ancestor of the `-A` commit (the seeded
+-- defect rewrote 2, 3, 4 here), immutable ancestor (refused before the loop check), mutable
+-- ancestor (loop), mutable non-ancestor, two `-B` commits, `--ignore-immutable`
+example : run exGraph [2] 4 false (.newAB 1 [2]) = .rejected := by decide
+example : run exGraph [2] 4 false (.newAB 4 [2]) = .rejected := by decide
+example : run exGraph [2] 4 false (.newAB 4 [3]) = .err := by decide
+example : run exGraph [2] 4 false (.newAB 1 [3]) = .ok [3, 4] [] := by decide
+example : run exGraph [2] 4 false (.newAB 1 [4, 2]) = .rejected := by decide
+example : run exGraph [2] 4 true (.newAB 1 [2]) = .ok [2, 3, 4] [] := by decide
+example : run exGraph [2] 4 false (.rebaseRAB 4 1 [2]) = .rejected := by decide
+example : run exGraph [2] 4 false (.rebaseRAB 2 1 [4]) = .rejected := by decide
+example : run exGraph [1] 4 false (.rebaseRAB 4 1 [2]) = .ok [2, 3, 4] [] := by decide
+example : run exGraph [2] 4 false (.duplicateAB 4 1 [2]) = .rejected := by decide
+example : run exGraph [2] 4 false (.duplicateAB 0 1 [3]) = .err := by decide
+example : run exGraph [2] 4 false (.revertAB 3 1 [2]) = .rejected := by decide
+example : run exGraph [2] 4 false (.revertAB 2 2 [4]) = .ok [4] [] := by decide
 example : snapshot exGraph [4] 4 false = .child 4 := by decide
 example : snapshot exGraph [2] 3 false = .amend [3, 4] := by decide
 example : (finishWc exGraph [4] 4 5).2 = 5 := by decide
